@@ -42,8 +42,9 @@ def run(tier, seed):
         seeds += [3, 4, 5, 6, 7, 4294967295]
     seeds = sorted(set(seeds))
     base = pool.fresh_dir('c17')
-    tasks = [('keys', s, ['keys', tier, 'hash'], base) for s in seeds]
-    tasks.append(('nohash', 7, ['keys', tier, 'nohash'], base))
+    # every other session asks for its keys in the reverse order (a key may not depend on what was keyed before)
+    tasks = [('keys', s, ['keys', tier, 'hash', 'rev' if i % 2 else 'fwd'], base) for i, s in enumerate(seeds)]
+    tasks.append(('nohash', 7, ['keys', tier, 'nohash', 'rev'], base))
     tables = {}
     nohash = None
     for kind, s, out in pool.run_configs(_task, tasks, seed=seed, procs=min(len(tasks), 8)):
